@@ -124,6 +124,14 @@ func (p *predEval) num(fr *predFrame, e ast.Expr) (int, bool) {
 	if call, ok := e.(*ast.CallExpr); ok && isBuiltin(fr.info, call, "len") && len(call.Args) == 1 && core.ObjOf(fr.info, call.Args[0]) == fr.recv {
 		return len(p.toks), true
 	}
+	// n := len(s) kept in a local
+	if id, ok := e.(*ast.Ident); ok {
+		if defs := p.c.P.Locals(fr.fi).Defs[core.ObjOf(fr.info, id)]; len(defs) == 1 && defs[0].Kind == core.DefAssign {
+			if _, again := core.Unparen(defs[0].Expr).(*ast.Ident); !again {
+				return p.num(fr, defs[0].Expr)
+			}
+		}
+	}
 	return 0, false
 }
 
@@ -273,6 +281,12 @@ func (p *predEval) body(fr *predFrame, list []ast.Stmt) tri {
 						}
 						continue
 					}
+				}
+			}
+			// a plain local definition (n := len(s)): read where it is used
+			if x.Tok == token.DEFINE && len(x.Lhs) == 1 && len(x.Rhs) == 1 {
+				if o := core.ObjOf(fr.info, x.Lhs[0]); o != nil && len(p.c.P.Locals(fr.fi).Defs[o]) == 1 {
+					continue
 				}
 			}
 			return triUnknown
@@ -522,7 +536,14 @@ func panicIndex(c *Ctx) {
 		}
 		e := core.Unparen(cd.Expr)
 		lenOfRecv := func(x ast.Expr) bool {
-			call, ok := core.Unparen(x).(*ast.CallExpr)
+			x = core.Unparen(x)
+			// n := len(s) kept in a local
+			if id, isId := x.(*ast.Ident); isId {
+				if defs := c.P.Locals(fi).Defs[core.ObjOf(info, id)]; len(defs) == 1 && defs[0].Kind == core.DefAssign {
+					x = core.Unparen(defs[0].Expr)
+				}
+			}
+			call, ok := x.(*ast.CallExpr)
 			return ok && isBuiltin(info, call, "len") && len(call.Args) == 1 && core.ObjOf(info, call.Args[0]) == recv
 		}
 		num := func(x ast.Expr) (int, bool) {
